@@ -208,7 +208,7 @@ def run(ctx):
 def _run(env):
     ctx = env.ctx
     S.check_pins(ctx, S.sig_pins(env.pgpy))
-    names = ['ed25519', 'p256', 'rsa2048', 'dsa2048'] if ctx.quick else ['ed25519', 'ed25519b', 'p256', 'p384', 'p521', 'secp256k1', 'rsa2048', 'rsa3072', 'dsa2048']
+    names = ['ed25519', 'p256', 'rsa2048', 'rsa2050', 'dsa2048'] if ctx.quick else ['ed25519', 'ed25519b', 'p256', 'p384', 'p521', 'secp256k1', 'rsa2048', 'rsa2050', 'rsa3072', 'dsa2048']
     allh = sorted(S.HASHES)
     with warnings.catch_warnings():
         warnings.simplefilter('ignore')
